@@ -10,6 +10,8 @@ import pulsarbat as pb
 
 from .. import exact, gen, probes, monitors, dsp, refdft
 
+from ..replay import wl_R
+
 RULE = ("baseband signals N in {1,2,7,64,1023,1024,4096,(thorough: 16384,65536)} x shapes (N,1),(N,4),(N,4,2),(N,2,3,2) x c8/c16 x "
         "shift {scalar,(1,),per-channel,length-1 axes,full} x value {whole bin, fractional, +-(N-1), >=N, 0, mixed signs, huge (thousands "
         "of bins)} x NumPy/Dask; white noise plus band-edge tones so wrap-around is visible in every element. Every freq_shift call is "
@@ -221,9 +223,14 @@ def wl_shift(ctx, idx, rng):
         ctx.call("freq_shift", pb.freq_shift, other, 1 * u.Hz, expect=TypeError, where="freq_shift(non-baseband)")
 
 
+def install_universal(ctx):
+    FreqShiftMonitor(ctx).install()
+    return probes.detach_all
+
+
 def workloads(ctx):
     q = ctx.tier == "quick"
-    return [("shift", 3920 if q else 30240, wl_shift)]
+    return [("R", 1, wl_R), ("shift", 3920 if q else 30240, wl_shift)]
 
 
 def setup(ctx):
